@@ -37,6 +37,7 @@ man = {
     },
     "engines": [
         {"name": "hypothesis", "path": "/venv/lib/python3.12/site-packages/hypothesis", "serves_properties": [c["property_id"] for c in checks], "kind_free_text": "property-based generation + shrinking (collect/bucket/shrink runner in vlib/core.py)"},
+        {"name": "atheris", "path": ".deps/atheris (installed by setup.sh from the offline wheelhouse)", "serves_properties": ["C04", "C05", "C06", "C14", "C15", "C16", "C18", "C20"], "kind_free_text": "coverage-guided stage of the thorough tier: libFuzzer mutates the choice sequence of the check's own Hypothesis strategy, same oracle (tools/fuzz.py); skipped with a note if atheris is missing"},
     ],
     "checks": checks,
     "not_applicable": na,
